@@ -38,10 +38,6 @@ func buildPipeline(g *scheduler.ExecutionGraph, stages []*stageDefinition, cfg *
 			Variables:    variables.FromMap(def.Variables),
 		}
 
-		if stage.Dir != "" {
-			stage.Task.Dir = stage.Dir
-		}
-
 		if stage.Name == "" {
 			if def.Task != "" {
 				stage.Name = def.Task
